@@ -49,13 +49,18 @@ impl Rig {
 
     /// runs a script and returns what the probe command `after` received
     fn run_after(&self, script: &str, v: &str) -> Result<Vec<Vec<String>>, String> {
+        self.run_after_vars(script, v).map(|(a, _)| a)
+    }
+
+    /// the same, with the final variables
+    fn run_after_vars(&self, script: &str, v: &str) -> Result<(Vec<Vec<String>>, std::collections::HashMap<String, String>), String> {
         self.got.borrow_mut().clear();
         self.after.borrow_mut().clear();
         let mut ctx = self.ctx.clone();
         ctx.variables.insert("v".into(), v.to_string());
         let (env, _o, _e, _h) = quiet_env();
         match runner::run_script(script, ctx, Some(env)) {
-            Ok(_) => Ok(self.after.borrow().clone()),
+            Ok(c) => Ok((self.after.borrow().clone(), c.variables)),
             Err(e) => Err(e.to_string()),
         }
     }
@@ -279,6 +284,75 @@ fn scale(w: &mut Worker, rig: &Rig) {
     }
 }
 
+/// The branch taken follows the direct call's output, whatever the predicate's body looks like: a user
+/// function that returns a value, returns its argument, falls off its end or returns bare after a
+/// command that produced a (truthy) output of its own.
+fn branch_follows_output(w: &mut Worker, rig: &Rig) {
+    let bodies: [(&str, &str); 6] = [
+        ("returns-true", "return true"),
+        ("returns-argument", "return ${1}"),
+        ("falls-off-end-after-output", "noted = set ${1}"),
+        ("bare-return-after-output", "noted = set ${1}\nreturn"),
+        ("falls-off-end-after-true", "noted = set true"),
+        ("returns-false-after-true", "noted = set true\nreturn false"),
+    ];
+    let values = ["x", "", "false", "0", "no", "a b", "true"];
+    for (bname, body) in bodies {
+        for scoped in [false, true] {
+            for v in values {
+                let head = if scoped { "fn <scope> p" } else { "fn p" };
+                let defs = format!("{}\n{}\nend\n", head, body);
+                // the direct call decides
+                let direct = guarded(|| rig.run_after_vars(&format!("{}r = p ${{v}} z", defs), v));
+                let expected = match direct {
+                    Ok(Ok((_, vars))) => crate::props::c06::ref_truthy(vars.get("r").map(|s| s.as_str())),
+                    other => {
+                        if w.take() {
+                            let cj = json!({"kind": "branch", "body": bname, "value": v, "scoped": scoped, "wrapper": "direct"});
+                            w.begin(|| cj.clone());
+                            w.fail("branch:direct-call-failed", &format!("{:?}", other.map(|x| x.map(|y| y.0))), cj);
+                        }
+                        continue;
+                    }
+                };
+                for (name, line) in [
+                    ("if", "if p ${v} z\ntaken = set yes\nend"),
+                    ("elseif", "if false\nelseif p ${v} z\ntaken = set yes\nend"),
+                    ("while", "while p ${v} z\ntaken = set yes\ngoto :out\nend\n:out"),
+                    ("not", "r = not p ${v} z\nif not ${r}\ntaken = set yes\nend"),
+                    ("alias", "alias al p\nr = al ${v} z\nif ${r}\ntaken = set yes\nend"),
+                ] {
+                    if !w.take() {
+                        continue;
+                    }
+                    let script = format!("{}{}", defs, line);
+                    let cj = json!({"kind": "branch", "body": bname, "value": v, "scoped": scoped, "wrapper": name, "script": script, "expected_taken": expected});
+                    w.begin(|| cj.clone());
+                    w.add_transitions(2);
+                    // `if ${r}` on a value with a blank would be a two-token statement: the alias form is
+                    // judged on its output directly
+                    match guarded(|| rig.run_after_vars(&script, v)) {
+                        Err(p) => w.fail("branch:panic", &p, cj),
+                        Ok(Err(e)) => w.fail(&format!("branch:run-failed:{}", name), &e, cj),
+                        Ok(Ok((_, vars))) => {
+                            let taken = if name == "alias" { crate::props::c06::ref_truthy(vars.get("r").map(|s| s.as_str())) } else { vars.get("taken").map(|s| s == "yes").unwrap_or(false) };
+                            if taken == expected {
+                                w.pass(true, hash64(&("branch", name, bname, expected)));
+                            } else {
+                                w.fail(
+                                    &format!("branch:{}:{}", name, bname),
+                                    &format!("predicate body {:?} ({}) with value {:?}: the direct call's output is {}, `{}` {} the branch", body, if scoped { "scoped" } else { "plain" }, v, if expected { "truthy" } else { "falsy" }, name, if taken { "took" } else { "did not take" }),
+                                    cj,
+                                );
+                            }
+                        }
+                    }
+                }
+            }
+        }
+    }
+}
+
 /// What a wrapped call leaves behind: after `if pred a b` (elseif / while / not) the variables a later
 /// line can see - the positional variables above all - are the ones a direct call `pred a b` leaves.
 /// Differential: the probe `after ${1} ${2} ${v} ${keep}` behind the wrapping line against the same
@@ -351,6 +425,7 @@ pub fn worker(w: &mut Worker) {
     let rig = Rig::new();
     scale(w, &rig);
     aftermath(w, &rig);
+    branch_follows_output(w, &rig);
     let vl = tier.pick(3usize, 4usize);
     let mut values: Vec<String> = Strings::new(&SIGMA[..], 0, vl).map(|v| v.concat()).collect();
     for s in SPECIAL {
@@ -403,6 +478,10 @@ pub fn worker(w: &mut Worker) {
 }
 
 pub fn replay(case: &Value) -> Result<String, String> {
+    if case["kind"].as_str() == Some("branch") {
+        let rig = Rig::new();
+        return Ok(format!("{:?}", rig.run_after_vars(case["script"].as_str().unwrap_or(""), case["value"].as_str().unwrap_or("")).map(|(_, v)| (v.get("taken").cloned(), v.get("r").cloned()))));
+    }
     if case["kind"].as_str() == Some("aftermath") {
         let rig = Rig::new();
         return Ok(format!("{:?}", rig.run_after(case["script"].as_str().unwrap_or(""), case["value"].as_str().unwrap_or(""))));
@@ -433,7 +512,7 @@ pub fn crash_sig(case: &Value, kind: &str) -> String {
     format!("{}:{}:{}", kind, case["wrapper"].as_str().unwrap_or("?"), class_of(case["value"].as_str().unwrap_or("")))
 }
 
-pub const RULE: &str = "values: every string up to the length bound over {a SP \" # \\\\ $ { } % LF CR = TAB e-acute} plus 8 special values (${v}, %{v}, \\\\${v}, ${w}, 'a b', '\"a b\"', 'a  b', x=y), held in a variable and written as ${v} in first or second argument position of a capture command invoked directly, as the condition of if / elseif / while, under not, through an alias that stores the value, through an alias that is passed the value, through a user function used as predicate, through aliases whose target is `not <predicate>` (value passed or stored), and through an alias that stores the value and whose name a second alias definition then tries to take (refused); every wrapping line both at the top level of the script and inside the body of a user function that was itself called with two arguments. Aftermath family: behind `if / elseif / while / not <user function> ${v} z` (plain and <scope> function, at top level and inside a called function, 6 values) a probe receives ${1} ${2} ${v} and a caller variable exactly as it does behind the direct call. Scale cases: 302 (thorough 3002) arguments, the first and last a value of 5000 (thorough 100000) characters of such text, through the direct call and seven wrappers. Oracle: the arguments received through the wrapper equal those received by the direct call. A failing case is classified by whether the received arguments equal what re-serialising the values into a line and parsing/binding it again yields (the recorded defect, one signature per input class) or not (a new violation). Non-trivial: the value contains a character other than plain letters";
+pub const RULE: &str = "values: every string up to the length bound over {a SP \" # \\\\ $ { } % LF CR = TAB e-acute} plus 8 special values (${v}, %{v}, \\\\${v}, ${w}, 'a b', '\"a b\"', 'a  b', x=y), held in a variable and written as ${v} in first or second argument position of a capture command invoked directly, as the condition of if / elseif / while, under not, through an alias that stores the value, through an alias that is passed the value, through a user function used as predicate, through aliases whose target is `not <predicate>` (value passed or stored), and through an alias that stores the value and whose name a second alias definition then tries to take (refused); every wrapping line both at the top level of the script and inside the body of a user function that was itself called with two arguments. Branch family: for six predicate bodies (returning true / its argument / false after a truthy command output, falling off the end or returning bare after a command that produced an output) x plain and <scope> x 7 values the branch taken by if / elseif / while / not / an alias is the one the direct call's output dictates. Aftermath family: behind `if / elseif / while / not <user function> ${v} z` (plain and <scope> function, at top level and inside a called function, 6 values) a probe receives ${1} ${2} ${v} and a caller variable exactly as it does behind the direct call. Scale cases: 302 (thorough 3002) arguments, the first and last a value of 5000 (thorough 100000) characters of such text, through the direct call and seven wrappers. Oracle: the arguments received through the wrapper equal those received by the direct call. A failing case is classified by whether the received arguments equal what re-serialising the values into a line and parsing/binding it again yields (the recorded defect, one signature per input class) or not (a new violation). Non-trivial: the value contains a character other than plain letters";
 pub const ASSUMPTIONS: &[&str] = &["the capture command returns true on its first call and false afterwards (so a while loop ends)", "classification of known findings uses the real parser and binder on a transcription of the line building in utils/eval.rs"];
 pub const EXHAUSTIVE: bool = true;
 pub const WALL_CAP_S: (u64, u64) = (55, 1500);
